@@ -52,10 +52,11 @@ func init() {
 		Id: "C07",
 		RuleText: "each run: one quiet replica (never sees CheckTx) and 2-3 noisy replicas execute the same PRNG-built history; on the noisy ones the scheduler injects, at " +
 			"every before/after site of InitChain(after)/BeginBlock/DeliverTx/EndBlock/Commit, 0-3 CheckTx calls drawn from the block's own transactions (before and after delivery), earlier ones, " +
-			"and state-writing kinds; no crashes. Oracle: transcripts of noisy replicas equal the quiet one. Non-trivial: >=1 CheckTx with code 0 and >=1 CheckTx strictly inside a block, >=5 block attempts compared; " +
+			"and mempool-only transactions (valid config-update proposals for every option family, never delivered); no crashes. Oracle: transcripts of noisy replicas equal the quiet one. Non-trivial: >=1 CheckTx with code 0 and >=1 CheckTx strictly inside a block, >=5 block attempts compared; " +
 			"distinct = distinct fingerprints.",
 		MakeSetup: func(rng *rand.Rand, tier string, seed uint64) *Setup {
 			k := SwarmKnobs(rng)
+			k.MaxGas = drawMaxGas(rng)
 			su := &Setup{Knobs: k, Sess: gen.NewSession()}
 			su.Replicas = append(su.Replicas, core.ReplicaConf{Identity: "x0", Quiet: true, Recent: 10, Every: 100, Cycles: 10, WitnessInitEarly: true})
 			n := 2 + rng.Intn(2)
@@ -73,8 +74,19 @@ func init() {
 			}
 			su.MaxTx = 10
 			rate := []float64{0.15, 0.3, 0.6}[rng.Intn(3)]
-			su.Policy = &NoisePolicy{Rng: rng, Sess: su.Sess, CheckRate: rate}
-			su.PlanHook = AbsentHook(0.05)
+			// mempool-only transactions: valid config-update proposals that are checked but never delivered
+			var mempoolOnly [][]byte
+			su.Policy = &NoisePolicy{Rng: rng, Sess: su.Sess, CheckRate: rate, Extra: func() [][]byte { return mempoolOnly }}
+			absent := AbsentHook(0.05)
+			su.PlanHook = func(e *core.Engine, rng *rand.Rand, st *core.Step, gc *gen.Ctx) {
+				absent(e, rng, st, gc)
+				if gc != nil && e.C.Height() >= 1 {
+					mempoolOnly = mempoolOnly[:0]
+					for _, t := range gen.MempoolOnlyProposals(gc) {
+						mempoolOnly = append(mempoolOnly, t.Bytes)
+					}
+				}
+			}
 			return su
 		},
 		MakeOracle: func(e *core.Engine, tr *core.Trace) Oracle {
